@@ -221,6 +221,18 @@ def t_engine():
     ok(len({r for _, r in engine.explore(run2, 9)}) == 1 + 2 + 4, "DFS complete on dependent tree")
 
 
+def t_copy_memoryview():
+    import copy
+    buf = bytearray(b"0123456789")
+    st = {"buf": buf, "view": memoryview(buf)[2:5], "empty": memoryview(buf)[4:4]}
+    c = copy.deepcopy(st)
+    c["buf"][3] = 0x58
+    ok(bytes(c["view"]) == b"2X4" and bytes(st["view"]) == b"234", "deep copy of a memoryview aliases the copied buffer, not the original")
+    c["view"][0] = 0x59
+    ok(bytes(c["buf"][:4]) == b"01YX" and bytes(buf) == b"0123456789", "writes through the copied view land in the copied buffer")
+    ok(len(c["empty"]) == 0, "empty view copied")
+
+
 def _spin(item, rep):
     if item == 1:
         while True:
@@ -290,7 +302,7 @@ def t_threaded_world():
 
 def main():
     for t in (t_reset_and_masks, t_status_shift_and_irq, t_retransmit_and_max_rt, t_pid_dup,
-              t_ack_payload_and_fifo_full, t_noack_and_static, t_half_duplex_collision, t_engine, t_item_watchdog,
+              t_ack_payload_and_fifo_full, t_noack_and_static, t_half_duplex_collision, t_engine, t_copy_memoryview, t_item_watchdog,
               t_threaded_world):
         try:
             t()
